@@ -1,6 +1,7 @@
 import Afkak.Monitor.C01
 import AfkakProofs.Producer.Once
 import AfkakProofs.Producer.Truth
+import AfkakProofs.Producer.RelStep
 import AfkakProps.Open.C01
 /-!
 # C01 — Producer acknowledgements are truthful and fire exactly once
@@ -15,6 +16,15 @@ open Afkak.Producer Afkak.Monitor.ProducerTrace Afkak.Monitor.C01
 theorem C01_fires_at_most_once (cfg : Cfg) (evs : List Ev) :
     atMostOnce cfg (traceOf cfg evs) = true :=
   atMostOnce_model cfg evs
+
+/-- Success only if acknowledged — trace level, for EVERY event list: whenever a send's Deferred fires
+    `ok r`, the step's event is the client's answer (or its answer to the cancel in `stop`) to the LAST
+    produce request observed, that request was still unanswered, `r` is one of the answer's responses
+    with error 0, and the request's payload for `r`'s topic/partition contains the send; `ok None` only
+    with acks = 0 on the empty answer, for a send that was in a request; an exception object is never
+    delivered as a success value.  This is the monitor evaluated on traces of the real Producer. -/
+theorem C01_success_only_if_acked (cfg : Cfg) (evs : List Ev) : successAcked cfg (traceOf cfg evs) = true :=
+  successAcked_model cfg evs
 
 /-- Success only if acknowledged — step level, for ANY state (reachable or not) and any event:
     if a step fires `ok resp` for send `s`, then the producer was waiting on a produce request
@@ -89,13 +99,14 @@ end Afkak.Props.C01
 
 /- OBLIGATIONS
 C01_fires_at_most_once
+C01_success_only_if_acked
 C01_success_only_if_acked_step
 C01_acks0
 C01_otherwise_fails
 C01_never_dropped
 -/
 /- OPEN_STATEMENTS
-C01_success_only_if_acked
 C01_fires_exactly_once
 C01_payload_integrity
+C01_acks0_succeeds
 -/
